@@ -2,6 +2,7 @@ package main
 
 import (
 	"encoding/json"
+	"math/rand"
 	"flag"
 	"fmt"
 	"go/ast"
@@ -47,6 +48,9 @@ type HarnessRun struct {
 	seed           int
 	deadline       time.Time
 	lemmaCache     map[string]Result
+	conc           *rand.Rand        // non-nil: concrete validation run (all inputs drawn at random)
+	concTable      map[string]string // the inputs drawn, in replay-table form
+	concOutcome    string
 	inputSeen      map[string]bool
 	simHits        int
 	cacheHits      int
@@ -63,6 +67,19 @@ func (h *HarnessRun) addInput(d InputDecl) {
 	}
 	h.inputSeen[d.Name] = true
 	h.inputs = append(h.inputs, d)
+}
+
+func (h *HarnessRun) concByte() byte {
+	// biased towards boundary bytes
+	switch h.conc.Intn(8) {
+	case 0:
+		return 0
+	case 1:
+		return 0xff
+	case 2:
+		return byte(h.conc.Intn(4))
+	}
+	return byte(h.conc.Intn(256))
 }
 
 func newHarnessRun(name string) *HarnessRun {
@@ -202,6 +219,9 @@ var (
 	flagSmtLog  = flag.String("smtlog", "", "log SMT traffic of the (single) harness to this file")
 	flagList    = flag.Bool("list", false, "list harnesses and exit")
 	flagBudget  = flag.Int("budget", 600, "per-harness wall-clock budget (s); queries after it are inconclusive")
+	flagConc    = flag.Int("concrete", 0, "translator validation: run each harness this many times on random concrete inputs and write tables + outcomes")
+	flagConcDir = flag.String("concdir", "", "directory for the concrete-run tables")
+	flagSeed    = flag.Int("seed", 0, "seed for simulation vectors and concrete runs")
 )
 
 type harnessDef struct {
@@ -330,6 +350,10 @@ func main() {
 	if len(defs) == 0 {
 		fmt.Fprintln(os.Stderr, "no harness matched")
 		os.Exit(2)
+	}
+	if *flagConc > 0 {
+		runConcrete(prog, defs, tier)
+		return
 	}
 	results := make([]*HarnessResult, len(defs))
 	var wg sync.WaitGroup
@@ -527,3 +551,105 @@ func runHarness(prog *ssa.Program, def harnessDef, tier int) (res *HarnessResult
 }
 
 var _ = big.NewInt
+
+// ConcRun is one concrete validation run of a harness.
+type ConcRun struct {
+	Harness string `json:"harness"`
+	Pkg     string `json:"pkg"`
+	Table   string `json:"table"`
+	Outcome string `json:"outcome"`
+}
+
+// runConcrete executes every selected harness on random concrete inputs (no solver) and writes
+// the input tables and the outcomes; the driver runs the same tables natively and compares.
+func runConcrete(prog *ssa.Program, defs []harnessDef, tier int) {
+	var runs []ConcRun
+	for _, def := range defs {
+		for k := 0; k < *flagConc; k++ {
+			outcome, table := concreteOnce(prog, def, tier, int64(*flagSeed)*1000003+int64(k)*7919+int64(len(def.fn.Name())))
+			if outcome == "" {
+				continue
+			}
+			p := filepath.Join(*flagConcDir, fmt.Sprintf("%s.%d.inputs", def.fn.Name(), k))
+			var sb strings.Builder
+			keys := make([]string, 0, len(table))
+			for kk := range table {
+				keys = append(keys, kk)
+			}
+			sort.Strings(keys)
+			for _, kk := range keys {
+				fmt.Fprintf(&sb, "%s %s\n", kk, table[kk])
+			}
+			os.WriteFile(p, []byte(sb.String()), 0644)
+			runs = append(runs, ConcRun{Harness: def.fn.Name(), Pkg: def.pkgDir, Table: p, Outcome: outcome})
+		}
+	}
+	out, _ := json.MarshalIndent(runs, "", " ")
+	if *flagOut != "" {
+		os.WriteFile(*flagOut, out, 0644)
+	} else {
+		fmt.Println(string(out))
+	}
+}
+
+func concreteOnce(prog *ssa.Program, def harnessDef, tier int, seed int64) (outcome string, table map[string]string) {
+	ts := NewTermStore()
+	stats := &SolverStats{}
+	solver := NewSolver(solverKind(), ts, 5*time.Second, stats)
+	defer solver.Close()
+	e := NewEngine(prog, ts, solver)
+	h := newHarnessRun(def.fn.Name())
+	h.tier = tier
+	h.directives = def.directives
+	h.conc = rand.New(rand.NewSource(seed))
+	h.concTable = map[string]string{}
+	h.deadline = time.Now().Add(120 * time.Second)
+	e.h = h
+	e.noMerge = true
+	if v := def.directives["unwind"]; len(v) > 0 {
+		f := strings.Fields(v[len(v)-1])
+		if n, err := strconv.Atoi(f[0]); err == nil {
+			e.maxUnwind = n
+		}
+	}
+	for _, s := range def.directives["stub"] {
+		f := strings.Fields(s)
+		if len(f) == 2 {
+			if fn := def.pkg.Func(f[1]); fn != nil {
+				e.stubs[f[0]] = fn
+			}
+		}
+	}
+	defer func() {
+		if r := recover(); r != nil {
+			outcome = "" // not executable concretely: skipped
+		}
+	}()
+	e.ensureInit(def.pkg)
+	st := e.newState()
+	e.pushFrame(st, def.fn, nil, nil, nil)
+	var final *State
+	e.onFinal = func(f *State) {
+		cp := *f
+		final = &cp
+	}
+	e.execUntil(st, nil)
+	if final == nil {
+		return "", nil
+	}
+	switch {
+	case h.concOutcome != "":
+		outcome = h.concOutcome
+	case final.status == Returned && final.expectPanic != "":
+		outcome = "assert " + final.expectPanic
+	case final.status == Returned:
+		outcome = "completed"
+	case final.status == Panicked && final.expectPanic != "":
+		outcome = "completed"
+	case final.status == Panicked:
+		outcome = "panic"
+	default:
+		outcome = ""
+	}
+	return outcome, h.concTable
+}
